@@ -537,3 +537,332 @@ func trailingTypeName(v ssa.Value, depth int) ssa.Value {
 	}
 	return nil
 }
+
+// */model-sequence-frame: generator-reachable code does not rewrite, in place, the sequences the wire is derived from - a packet's
+// field list (declaration order, C01/C03) or a match field's pair list (dispatch table, C05). Every generator reads the one parsed
+// model; a sort, an in-place filter (append onto x[:0]) or an element store on those slices changes what the generators that run
+// later emit. The engine is C14's write-effect analysis (scanFrame); this rule keeps the findings whose written storage is a
+// sequence of model.Field / model.MatchPair.
+func wireSequenceFrame(w *World, r *Report, prop string, elems map[string]bool) {
+	rule := prop + "/model-sequence-frame"
+	subjects, err := c14Subjects(w)
+	if err != nil {
+		r.fatal("%v", err)
+		return
+	}
+	mparams := mutatedParams(w)
+	n := 0
+	nw := 0
+	for _, fn := range subjects {
+		var bad []frameFinding
+		for _, f := range scanFrame(w, fn, mparams, &nw) {
+			if f.typ == nil || f.rule != "C14/model-frame" {
+				continue
+			}
+			if en := seqElemName(f.typ); elems[en] {
+				bad = append(bad, f)
+			}
+		}
+		n++
+		if len(bad) == 0 {
+			r.pass(rule, fnKey(fn), w.pos(fn.Pos()), "")
+			continue
+		}
+		seen := map[string]bool{}
+		for _, f := range bad {
+			if seen[f.what] {
+				continue
+			}
+			seen[f.what] = true
+			r.fail(rule, fnKey(fn)+": "+f.what, f.pos, "a generator rewrites a sequence of the shared model in place: the generators that run after it see another field order / match table than the DSL declares")
+		}
+	}
+	r.floor(rule, 100)
+}
+
+func seqElemName(t types.Type) string {
+	for i := 0; i < 3; i++ {
+		switch u := t.Underlying().(type) {
+		case *types.Pointer:
+			t = u.Elem()
+			continue
+		case *types.Slice:
+			t = u.Elem()
+			continue
+		case *types.Array:
+			t = u.Elem()
+			continue
+		}
+		break
+	}
+	if p, ok := t.(*types.Pointer); ok {
+		t = p.Elem()
+	}
+	return modelTypeName(t)
+}
+
+// mustFacts: forward must-analysis over branch edges. edgeFact(b, succ) gives the facts (bits) established by taking successor
+// succ of b; the result holds, per block index, the facts established on every path from the entry (unreachable blocks: all).
+func mustFacts(fn *ssa.Function, all int, edgeFact func(b *ssa.BasicBlock, succ int) int) []int {
+	in := make([]int, len(fn.Blocks))
+	for i := range in {
+		in[i] = all
+	}
+	if len(fn.Blocks) == 0 {
+		return in
+	}
+	in[0] = 0
+	reach := map[*ssa.BasicBlock]bool{fn.Blocks[0]: true}
+	for changed := true; changed; {
+		changed = false
+		for _, b := range fn.Blocks {
+			if !reach[b] {
+				continue
+			}
+			for si, s := range b.Succs {
+				out := in[b.Index]
+				if len(b.Succs) == 2 && b.Succs[0] != b.Succs[1] {
+					out |= edgeFact(b, si)
+				}
+				if !reach[s] {
+					reach[s] = true
+					in[s.Index] = out
+					changed = true
+				} else if nv := in[s.Index] & out; nv != in[s.Index] {
+					in[s.Index] = nv
+					changed = true
+				}
+			}
+		}
+	}
+	return in
+}
+
+// */padding-precedence: a fixed string is padded "with the declared, else configured" padding. In the padding resolvers
+// (each generator's GetPadding and the helpers it calls, wherever they live) every result that is made - wholly or in part - of
+// Configuration.Padding must be produced only on paths where the field is known to have no padding of its own (the field is not
+// a fixed string, or its Padding is nil). A resolver that looks at the *content* of the declared padding before honouring it
+// (IsDefault(), PadChar == "' '") lets the configuration override what the DSL declares on the field.
+const (
+	padAbsent  = 1 // the field has no own padding on this path
+	padPresent = 2
+)
+
+func paddingEdgeFact(b *ssa.BasicBlock, succ int) int {
+	cond := branchCond(b)
+	if cond == nil {
+		return 0
+	}
+	val := succ == 0
+	for {
+		if u, ok := cond.(*ssa.UnOp); ok && u.Op == token.NOT {
+			cond = u.X
+			val = !val
+			continue
+		}
+		break
+	}
+	switch x := cond.(type) {
+	case *ssa.Extract:
+		if ta, ok := x.Tuple.(*ssa.TypeAssert); ok && x.Index == 1 && ta.CommaOk && modelTypeName(ta.AssertedType) == "FixedStringFieldAttribute" {
+			if !val {
+				return padAbsent
+			}
+		}
+	case *ssa.BinOp:
+		if x.Op != token.EQL && x.Op != token.NEQ {
+			return 0
+		}
+		var o ssa.Value
+		if isNilConst(x.X) {
+			o = x.Y
+		} else if isNilConst(x.Y) {
+			o = x.X
+		} else {
+			return 0
+		}
+		if ld, ok := stripIdentity(o).(*ssa.UnOp); ok && ld.Op == token.MUL {
+			if fa, ok := ld.X.(*ssa.FieldAddr); ok {
+				if tn, f, _, _ := fieldOf(fa); tn == "FixedStringFieldAttribute" && f == "Padding" {
+					isNil := (x.Op == token.EQL) == val
+					if isNil {
+						return padAbsent
+					}
+					return padPresent
+				}
+			}
+		}
+	}
+	return 0
+}
+
+type padWalk struct {
+	w     *World
+	must  map[*ssa.Function][]int
+	bad   []string
+	badAt ssa.Instruction
+	leafs int
+}
+
+func (pw *padWalk) mustOf(fn *ssa.Function) []int {
+	if m, ok := pw.must[fn]; ok {
+		return m
+	}
+	m := mustFacts(fn, padAbsent|padPresent, paddingEdgeFact)
+	pw.must[fn] = m
+	return m
+}
+
+type padFrame struct {
+	fn     *ssa.Function
+	binds  map[*ssa.Parameter]ssa.Value
+	parent *padFrame
+	site   ssa.Instruction
+}
+
+func (pw *padWalk) walk(v ssa.Value, facts int, fr *padFrame, depth int, seen map[ssa.Value]bool) {
+	if depth > 12 || v == nil {
+		return
+	}
+	v = stripIdentity(v)
+	if seen[v] {
+		return
+	}
+	seen[v] = true
+	defer delete(seen, v)
+	switch x := v.(type) {
+	case *ssa.Phi:
+		m := pw.mustOf(fr.fn)
+		for i, e := range x.Edges {
+			p := x.Block().Preds[i]
+			f := facts | m[p.Index]
+			for si, s := range p.Succs {
+				if s == x.Block() && len(p.Succs) == 2 && p.Succs[0] != p.Succs[1] {
+					f |= paddingEdgeFact(p, si)
+				}
+			}
+			pw.walk(e, f, fr, depth+1, seen)
+		}
+	case *ssa.Alloc:
+		m := pw.mustOf(fr.fn)
+		var visit func(addr ssa.Value)
+		visit = func(addr ssa.Value) {
+			refs := addr.Referrers()
+			if refs == nil {
+				return
+			}
+			for _, ref := range *refs {
+				switch r := ref.(type) {
+				case *ssa.Store:
+					if r.Addr == addr {
+						pw.walk(r.Val, facts|m[r.Block().Index], fr, depth+1, seen)
+					}
+				case *ssa.FieldAddr:
+					if r.X == addr {
+						visit(r)
+					}
+				}
+			}
+		}
+		visit(x)
+	case *ssa.UnOp:
+		if x.Op != token.MUL {
+			return
+		}
+		if fa, ok := x.X.(*ssa.FieldAddr); ok {
+			tn, f, _, _ := fieldOf(fa)
+			switch {
+			case tn == "Configuration" && f == "Padding":
+				pw.leafs++
+				if facts&padAbsent == 0 {
+					pw.bad = append(pw.bad, pw.w.instrPos(x))
+					if pw.badAt == nil {
+						pw.badAt = x
+					}
+				}
+				return
+			case tn == "FixedStringFieldAttribute" && f == "Padding":
+				pw.leafs++
+				return
+			case tn == "Padding":
+				pw.walk(fa.X, facts, fr, depth+1, seen)
+				return
+			}
+			return
+		}
+		pw.walk(x.X, facts, fr, depth+1, seen)
+	case *ssa.Parameter:
+		for f := fr; f != nil; f = f.parent {
+			if a, ok := f.binds[x]; ok && f.parent != nil {
+				pf := f.parent
+				m := pw.mustOf(pf.fn)
+				extra := 0
+				if f.site != nil {
+					extra = m[f.site.Block().Index]
+				}
+				pw.walk(a, facts|extra, pf, depth+1, seen)
+				return
+			}
+		}
+	case *ssa.Call:
+		g := x.Call.StaticCallee()
+		if g == nil || g.Blocks == nil || !(g.Pkg == pw.w.Parser || g.Pkg == pw.w.Model) {
+			return
+		}
+		if !paddingTyped(x.Type()) {
+			return
+		}
+		nf := &padFrame{fn: g, binds: map[*ssa.Parameter]ssa.Value{}, parent: fr, site: x}
+		for i, p := range g.Params {
+			if i < len(x.Call.Args) {
+				nf.binds[p] = x.Call.Args[i]
+			}
+		}
+		m := pw.mustOf(g)
+		for _, b := range g.Blocks {
+			ret, ok := b.Instrs[len(b.Instrs)-1].(*ssa.Return)
+			if !ok || len(ret.Results) == 0 {
+				continue
+			}
+			pw.walk(ret.Results[0], facts|m[b.Index], nf, depth+1, seen)
+		}
+	}
+}
+
+func paddingTyped(t types.Type) bool {
+	if p, ok := t.(*types.Pointer); ok {
+		t = p.Elem()
+	}
+	return modelTypeName(t) == "Padding"
+}
+
+func wirePaddingPrecedence(wc *wireCtx, r *Report, prop string) {
+	rule := prop + "/padding-precedence"
+	w := wc.m.w
+	for _, l := range codecLangs {
+		fns := wc.anchors[l]["padding"]
+		if len(fns) != 1 {
+			continue
+		}
+		fn := fns[0]
+		pw := &padWalk{w: w, must: map[*ssa.Function][]int{}}
+		root := &padFrame{fn: fn, binds: map[*ssa.Parameter]ssa.Value{}}
+		m := pw.mustOf(fn)
+		for _, b := range fn.Blocks {
+			ret, ok := b.Instrs[len(b.Instrs)-1].(*ssa.Return)
+			if !ok || len(ret.Results) == 0 {
+				continue
+			}
+			pw.walk(ret.Results[0], m[b.Index], root, 0, map[ssa.Value]bool{})
+		}
+		key := l + ": the configured padding is used only where the field declares none"
+		switch {
+		case pw.leafs == 0:
+			r.fail(rule, key, w.pos(fn.Pos()), "the padding resolver returns neither the field's nor the configured padding (no source found)")
+		case len(pw.bad) > 0:
+			r.fail(rule, key, w.instrPos(pw.badAt.(ssa.Instruction)), "a result is built from Configuration.Padding on a path where the field may have a padding of its own (read at "+strings.Join(uniqStrings(pw.bad), ", ")+"): a declared pad character / side is overridden by the options")
+		default:
+			r.pass(rule, key, w.pos(fn.Pos()), fmt.Sprintf("%d source reads", pw.leafs))
+		}
+	}
+}
